@@ -479,12 +479,18 @@ WHAT = {
 }
 
 
+def ill_formed(rec) -> bool:
+    """a loop with step 0 that create_program never reaches (it lies inside an empty loop / repetition): the template is
+    ill-formed (`range(a, b, 0)`), its closed forms contain `zoo`; nothing is judged"""
+    return rec['case'].get('fault') == 'zerostep'
+
+
 def diff_model(rec) -> List[str]:
     """(a) the real symbolic results against the Lean model of the closed forms"""
     impl, reply = rec['impl'], rec['reply']
     d: List[str] = []
     # not an accepted assignment (rejected, or a declared parameter is missing): only values that both sides produce count
-    rejected = impl['status'] == 'error' or not rec['meta'].get('complete', True)
+    rejected = impl['status'] == 'error' or not rec['meta'].get('complete', True) or ill_formed(rec)
     for qi, q in enumerate(QUANTS):
         iq = impl['q'][q]
         if rejected and isinstance(iq, str) and iq.startswith('error:'):
@@ -563,6 +569,8 @@ def judge(rec) -> Tuple[List[dict], List[dict]]:
         return viol, known          # the parameter assignment is not accepted
     if not reply['regular']:
         return viol, known          # negative duration / count, non exact integers: outside the quantifier
+    if ill_formed(rec):
+        return viol, known
     if not rec['meta'].get('complete', True):
         # a declared parameter is missing (create_program only notices if the parameter is actually used): not an
         # accepted parameter assignment
@@ -867,6 +875,385 @@ def report(ctx, rec, diffs, viols, known):
 
 
 # ------------------------------------------------------------------------------------------------
+# shared objects / query history: one atom OBJECT used by several templates, quantities queried in varying orders
+# ------------------------------------------------------------------------------------------------
+
+SHARED_RANGES = [['0', '3', '1'], ['2', '8', '2'], ['0', '5', '2'], ['3', '0', '-1'], ['1', '2', '1'], ['0', '0', '1'],
+                 ['4', '1', '-2']]
+HIST_OPS = ['integral', 'initial', 'final', 'initial', 'final', 'pad', 'mutate-initial', 'mutate-final', 'mutate-integral']
+
+
+def handmade_shared_atoms() -> List[Tuple[List[str], dict]]:
+    """one index dependent atom per atomic class (channels, spec)"""
+    return [
+        (['X', 'Y'], {'k': 'point', 'chans': ['X', 'Y'], 'entries': [['0', ['v*i', 'w'], 'hold'], ['2', ['v*(i + 1)', 'w'], 'linear'],
+                                                               ['3', ['v*(i + 1)', 'w'], 'hold']], 'meas': [], 'cons': []}),
+        (['X'], {'k': 'point', 'chans': ['X'], 'entries': [['0', 'i/2', 'hold'], ['1', 'v + i', 'linear']], 'meas': [], 'cons': []}),
+        (['X', 'Y'], {'k': 'const', 'dur': '1', 'amps': [['X', 'v + i/4'], ['Y', 'w']], 'meas': []}),
+        (['X', 'Y'], {'k': 'table', 'entries': [['X', [['0', 'i/2', 'hold'], ['1', 'v + i', 'linear'], ['2', 'v - i/4', 'linear']]],
+                                                ['Y', [['0', 'w', 'hold'], ['2', 'w + i', 'linear']]]], 'meas': [], 'cons': []}),
+        (['X'], {'k': 'func', 'ch': 'X', 'dur': '2', 'expr': 'v + i*t/2', 'meas': [], 'cons': []}),
+        (['X', 'Y'], {'k': 'amulti', 'subs': [{'k': 'const', 'dur': '1', 'amps': [['X', 'v + i']], 'meas': []},
+                                              {'k': 'func', 'ch': 'Y', 'dur': '1', 'expr': 'w + i*t', 'meas': [], 'cons': []}],
+                      'meas': [], 'cons': []}),
+        (['X'], {'k': 'aarith', 'lhs': {'k': 'const', 'dur': '1', 'amps': [['X', 'v']], 'meas': []}, 'op': '-',
+                 'rhs': {'k': 'table', 'entries': [['X', [['0', 'i', 'hold'], ['1', 'w', 'linear']]]], 'meas': [], 'cons': []},
+                 'meas': []}),
+    ]
+
+
+def shared_scenario(rng) -> Optional[dict]:
+    """a JSON-able scenario: one atom, several users of the SAME atom object, a script of queries"""
+    hand = handmade_shared_atoms()
+    params: Dict[str, Any] = {'v': rng.randrange(-8, 9) / 8, 'w': rng.randrange(-8, 9) / 8}
+    if rng.random() < 0.6:
+        chans, atom = hand[rng.randrange(len(hand))]
+        atom = copy.deepcopy(atom)
+    else:
+        g = ptgen.Gen(rng, 3)
+        env, values = g.params()
+        chans = ['X', 'Y'][:rng.choice([1, 2])]
+        try:
+            atom = ptgen.strip(g.atom(chans, env.with_idx('i', [0, 1, 2, 3]), None, 'i'))
+            if 'i' not in ptgen.build(atom).parameter_names:
+                return None
+        except Exception:  # noqa -- an ill-formed draw
+            return None
+        params.update(values)
+    users: List[dict] = []
+    kinds = ['self', 'for', 'for', 'par', 'rep', 'map', 'seq2', 'arith']
+    n_users = rng.choice([2, 3, 3, 4])
+    chosen = [rng.choice(kinds) for _ in range(n_users)]
+    if not any(k in ('for', 'par') for k in chosen):
+        chosen[0] = rng.choice(['for', 'par'])
+    ranges = rng.sample(SHARED_RANGES, len(SHARED_RANGES))
+    for k in chosen:
+        if k == 'self':
+            users.append({'kind': 'self', 'i': rng.randrange(0, 4)})
+        elif k == 'for':
+            users.append({'kind': 'for', 'range': ranges.pop()})
+        elif k == 'par':
+            ch = rng.choice(chans + ['Z'])
+            users.append({'kind': 'par', 'over': [[ch, rng.choice(['0.25', 'w + 1', '-1.5'])]], 'i': rng.randrange(0, 4)})
+        elif k == 'rep':
+            users.append({'kind': 'rep', 'count': rng.choice(['2', '1', '3']), 'i': rng.randrange(0, 4)})
+        elif k == 'map':
+            users.append({'kind': 'map', 'pm': [['i', 'j + 1']], 'j': rng.randrange(0, 3)})
+        elif k == 'seq2':
+            users.append({'kind': 'seq2', 'i': rng.randrange(0, 4)})
+        else:
+            users.append({'kind': 'arith', 'op': rng.choice(['*', '+', '-']), 'scalar': rng.choice(['2', '0.5', 'w']),
+                          'pt_lhs': rng.random() < 0.5, 'i': rng.randrange(0, 4)})
+    script = []
+    for _ in range(rng.randrange(4, 12)):
+        script.append([rng.randrange(len(users)), rng.choice(HIST_OPS)])
+    return {'atom': atom, 'chans': chans, 'users': users, 'params': params, 'script': script}
+
+
+def user_spec(u: dict, atom: dict) -> dict:
+    k = u['kind']
+    if k == 'self':
+        return atom
+    if k == 'for':
+        return {'k': 'for', 'body': atom, 'idx': 'i', 'range': list(u['range']), 'meas': [], 'cons': []}
+    if k == 'par':
+        return {'k': 'par', 'body': atom, 'over': [list(o) for o in u['over']]}
+    if k == 'rep':
+        return {'k': 'rep', 'body': atom, 'count': u['count'], 'meas': [], 'cons': []}
+    if k == 'map':
+        return {'k': 'map', 'body': atom, 'pm': [list(x) for x in u['pm']], 'mm': None, 'cm': None}
+    if k == 'seq2':
+        return {'k': 'seq', 'subs': [atom, atom], 'meas': [], 'cons': []}
+    if k == 'arith':
+        return {'k': 'arith', 'body': atom, 'op': u['op'], 'scalar': u['scalar'], 'pt_lhs': u['pt_lhs']}
+    raise core.MachineryError('unknown user kind %r' % k)
+
+
+def user_params(u: dict, base: dict) -> dict:
+    p = dict(base)
+    if 'i' in u:
+        p['i'] = u['i']
+    if 'j' in u:
+        p['j'] = u['j']
+    return p
+
+
+def _pad_tail(pad: Optional[dict], T) -> Any:
+    """what a padded program plays after the original end: {ch: [(len, v0, v1), ...]} | status"""
+    if pad is None:
+        return None
+    if pad.get('status') != 'ok' or not pad.get('segs'):
+        return pad.get('status'), pad.get('error')
+    out = {}
+    for ch, segs in pad['segs'].items():
+        t = F(0)
+        tail = []
+        for (l, a, b) in segs:
+            if t >= T:
+                tail.append((l, a, b))
+            t += l
+        out[ch] = tail
+    return out
+
+
+def run_scenario(desc: dict) -> Optional[dict]:
+    """worker: build the shared objects, run the script, and evaluate a FRESH structurally equal template per user"""
+    import warnings
+    warnings.filterwarnings('ignore')
+    core.ensure_repo_on_path()
+    from qupulse.expressions import ExpressionScalar
+    sc = desc['scenario']
+    if sc is None:
+        sc = shared_scenario(random.Random(desc['seed']))
+        if sc is None:
+            return None
+    try:
+        atom_obj = ptgen.build(copy.deepcopy(sc['atom']))
+    except Exception:  # noqa
+        return None
+    shared_atom = dict(copy.deepcopy(sc['atom']), _pt=atom_obj)
+    users = []
+    for u in sc['users']:
+        spec = user_spec(u, shared_atom)
+        try:
+            obj = atom_obj if u['kind'] == 'self' else ptgen.build(spec)
+            fresh_case = {'spec': ptgen.strip(spec), 'params': user_params(u, sc['params']), 'cm': {}, 'mm': None,
+                          'single': [], 'pad': F(1, 2)}
+            ptgen.build(fresh_case['spec'])
+        except Exception:  # noqa -- e.g. the loop index is not used by a random atom
+            users.append(None)
+            continue
+        users.append({'obj': obj, 'case': fresh_case})
+    if sum(u is not None for u in users) < 2:
+        return None
+    history = []
+    for step, (ui, op) in enumerate(sc['script']):
+        u = users[ui]
+        if u is None:
+            continue
+        pt, params = u['obj'], dict(u['case']['params'])
+        if op.startswith('mutate-'):
+            q = op[len('mutate-'):]
+            try:
+                d = getattr(pt, ATTR[q])
+                for k in list(d):
+                    d[k] = ExpressionScalar(777)
+                d['__caller__'] = ExpressionScalar(1)
+                if len(d) > 1 and step % 2:
+                    d.pop(next(iter(d)))
+            except Exception:  # noqa -- not provided / immutable result: nothing to corrupt
+                pass
+            continue
+        if op == 'pad':
+            ans: Any = None
+            try:
+                td = ptgen.num_frac(pt.duration.evaluate_in_scope(dict(params)))
+                padded = pt.pad_to(float(td + F(1, 2)))
+                pprog = padded.create_program(parameters=params)
+                pad: Dict[str, Any] = {'new_dur': td + F(1, 2)}
+                if pprog is None:
+                    pad['status'] = 'empty'
+                else:
+                    pad['status'] = 'ok'
+                    pad['dur'] = ptgen.num_frac(pprog.duration)
+                    sets = ptgen.leaf_channel_sets(pprog)
+                    chans = sorted(sets[0]) if all(s_ == sets[0] for s_ in sets) else None
+                    pad['chans'] = chans
+                    pad['segs'] = program_segments(pprog, chans) if chans else None
+                ans = pad
+            except NotImplementedError:
+                ans = None
+            except Exception as exc:  # noqa
+                ans = {'status': 'error', 'error': core.classify_exception(exc)}
+            history.append({'step': step, 'user': ui, 'op': op, 'answer': ans})
+            continue
+        try:
+            d = getattr(pt, ATTR[op])
+            ans = {str(ch): eval_quantity(e, params) for ch, e in d.items()}
+        except NotImplementedError:
+            ans = 'not-provided'
+        except Exception as exc:  # noqa
+            ans = 'error:' + core.classify_exception(exc)
+        history.append({'step': step, 'user': ui, 'op': op, 'answer': ans})
+    recs = []
+    for u in users:
+        if u is None:
+            recs.append(None)
+            continue
+        r = work({'family': 'given', 'case': u['case'], 'label': 'shared:fresh'})
+        recs.append(r)
+    atom_kinds = ptgen.spec_kinds(sc['atom'])
+    return {'scenario': {'atom': sc['atom'], 'chans': sc['chans'], 'users': sc['users'], 'params': sc['params'],
+                         'script': sc['script']},
+            'recs': recs, 'history': history, 'atom_kinds': atom_kinds}
+
+
+def judge_history(out: dict) -> Tuple[List[dict], List[dict], List[str]]:
+    """every answer of the query history against the answer of the fresh template; a different answer is judged
+    against the instantiated pulse like any other answer.  Returns (violations, known, drifts)."""
+    viols: List[dict] = []
+    known: List[dict] = []
+    drifts: List[str] = []
+    kinds = [u['kind'] for u in out['scenario']['users']]
+    for h in out['history']:
+        rec = out['recs'][h['user']]
+        if rec is None or 'reply' not in rec:
+            continue
+        op = h['op']
+        before = ', '.join('%s on user %d (%s)' % (o, ui, kinds[ui]) for ui, o in out['scenario']['script'][:h['step']]) or 'nothing'
+        if op == 'pad':
+            fresh_pad = rec['impl'].get('pad')
+            T = rec['impl']['dur'] if rec['impl']['status'] == 'ok' else F(0)
+            if h['answer'] is None or fresh_pad is None:
+                continue
+            if _pad_tail(h['answer'], T) == _pad_tail(fresh_pad, T):
+                continue
+            mod = dict(rec, impl=dict(rec['impl'], pad=h['answer']))
+            clause = 'pad'
+        else:
+            fresh = rec['impl']['q'][op]
+            if h['answer'] == fresh:
+                continue
+            mod = dict(rec, impl=dict(rec['impl'], q=dict(rec['impl']['q'], **{op: h['answer']})))
+            clause = op
+        vs, ks = judge(mod)
+        vs = [v for v in vs if v['clause'].startswith(clause)]
+        ks = [k for k in ks if k['clause'].startswith(clause)]
+        note = ' -- queried on user %d (%s) of a shared %s object after: %s; a fresh structurally equal template answers %s' % (
+            h['user'], kinds[h['user']], '/'.join(out['atom_kinds']), before,
+            _short_answer(rec['impl'].get('pad') if op == 'pad' else rec['impl']['q'][op], op, rec))
+        for v in vs:
+            viols.append(dict(v, what=v['what'] + note, step=h['step']))
+        for k in ks:
+            known.append(k)
+        if not vs and not ks:
+            drifts.append('%s of user %d (%s) depends on the query history: %s, fresh %s (after: %s)' % (
+                op, h['user'], kinds[h['user']], _short_answer(h['answer'], op, rec),
+                _short_answer(rec['impl'].get('pad') if op == 'pad' else rec['impl']['q'][op], op, rec), before))
+    return viols, known, drifts
+
+
+def _short_answer(ans, op, rec) -> str:
+    if op == 'pad':
+        T = rec['impl']['dur'] if rec['impl']['status'] == 'ok' else F(0)
+        t = _pad_tail(ans, T)
+        if isinstance(t, dict):
+            return '{%s}' % ', '.join('%s: holds %s' % (ch, '/'.join(sorted({str(a) for (_l, a, _b) in segs})) or '-')
+                                      for ch, segs in sorted(t.items()))
+        return str(t)
+    if isinstance(ans, dict):
+        return '{%s}' % ', '.join('%s: %s' % (ch, v[1]) for ch, v in sorted(ans.items()))
+    return str(ans)
+
+
+def evaluate_scenarios(ctx, descs: List[dict]) -> List[dict]:
+    workers = int(os.environ.get('VERIF_WORKERS', '0')) or (4 if ctx.quick else 14)
+    workers = max(1, min(workers, len(descs) // 4 or 1))
+    if workers > 1:
+        mp = multiprocessing.get_context('fork')
+        with mp.Pool(workers) as pool:
+            outs = pool.map(run_scenario, descs, chunksize=max(1, len(descs) // (workers * 4)))
+    else:
+        outs = [run_scenario(d) for d in descs]
+    outs = [o for o in outs if o is not None]
+    flat = [r for o in outs for r in o['recs'] if r is not None]
+    answers = core.Lean.run([r['line'] for r in flat])
+    for r, a in zip(flat, answers):
+        r['reply'] = parse_reply(a)
+    return outs
+
+
+def shrink_scenario(ctx, out: dict, clause: str) -> dict:
+    """drop script steps / users while some answer of the history still violates the same clause"""
+    best = out
+    progressed = True
+    rounds = 0
+    while progressed and rounds < 8:
+        progressed = False
+        rounds += 1
+        sc = best['scenario']
+        cands = []
+        for i in range(len(sc['script'])):
+            c = copy.deepcopy(sc)
+            del c['script'][i]
+            cands.append(c)
+        if not cands:
+            break
+        outs = evaluate_scenarios(ctx, [{'scenario': c, 'seed': 0} for c in cands])
+        for o in outs:
+            vs, _k, _d = judge_history(o)
+            if any(v['clause'].startswith(clause) for v in vs) and len(o['scenario']['script']) < len(best['scenario']['script']):
+                best = o
+                progressed = True
+                break
+    return best
+
+
+def scenario_replay(out: dict, what: str) -> dict:
+    sc = copy.deepcopy(out['scenario'])
+    return {'kind': 'c07-shared', 'scenario': sc, 'what': what}
+
+
+def shared_stream(ctx, n: int):
+    base = ctx.fork('shared').getrandbits(48)
+    descs = [{'scenario': None, 'seed': base + i} for i in range(n)]
+    # every hand-made atom with a fixed adversarial script: wrappers first, then the other users, then the atom itself
+    for ai, (chans, atom) in enumerate(handmade_shared_atoms()):
+        users = [{'kind': 'for', 'range': ['0', '3', '1']}, {'kind': 'for', 'range': ['2', '8', '2']},
+                 {'kind': 'par', 'over': [[chans[-1], '0.25']], 'i': 5}, {'kind': 'self', 'i': 1}]
+        for order in ([0, 1, 2, 3], [2, 3, 0, 1], [3, 1, 0, 2]):
+            script = []
+            for ui in order:
+                script += [[ui, 'initial'], [ui, 'final'], [ui, 'integral'], [ui, 'pad']]
+            script += [[order[0], 'mutate-final'], [order[0], 'mutate-initial'], [order[0], 'mutate-integral']]
+            for ui in order:
+                script += [[ui, 'final'], [ui, 'initial'], [ui, 'integral']]
+            descs.append({'scenario': {'atom': copy.deepcopy(atom), 'chans': chans, 'users': users,
+                                       'params': {'v': 0.25, 'w': 1.0}, 'script': script}, 'seed': ai})
+    outs = evaluate_scenarios(ctx, descs)
+    handle_scenarios(ctx, outs)
+
+
+def handle_scenarios(ctx, outs: List[dict], count=True) -> bool:
+    ok = True
+    for o in outs:
+        for r in o['recs']:
+            if r is None:
+                continue
+            diffs, viols, known = assess(ctx, r, count=count)
+            if diffs or viols or known:
+                ctx.disagreements += 1 if (diffs or viols) else 0
+                report(ctx, r, diffs, viols, known)
+                ok = ok and not viols
+        if count:
+            ctx.count('shared:scenarios')
+            ctx.count('shared:queries', len(o['history']))
+            for k in set(o['atom_kinds']):
+                ctx.count('shared:atom:' + k)
+            for u in o['scenario']['users']:
+                ctx.count('shared:user:' + u['kind'])
+            ctx.count('shared:caller-mutations', sum(1 for _u, op in o['scenario']['script'] if op.startswith('mutate-')))
+        vs, ks, ds = judge_history(o)
+        for k in ks:
+            note_known(ctx, k)
+        if vs:
+            ok = False
+            ctx.disagreements += 1
+            small = o
+            n_shrunk = ctx.extra.setdefault('shrunk_scenarios', 0)
+            if n_shrunk < 2:
+                ctx.extra['shrunk_scenarios'] = n_shrunk + 1
+                small = shrink_scenario(ctx, o, vs[0]['clause'])
+                vs2, _k, _d = judge_history(small)
+                vs = [v for v in vs2 if v['clause'].startswith(vs[0]['clause'])] or vs
+            ctx.violation(vs[0]['what'], scenario_replay(small, vs[0]['what']))
+        elif ds:
+            ctx.drift('answers of integral / initial_values / final_values / pad_to depend on the query history', o['scenario'],
+                      ds[:3], 'fresh template')
+    return ok
+
+
+# ------------------------------------------------------------------------------------------------
 # test-level: non-affine function templates against composite Simpson integration of the real program
 # ------------------------------------------------------------------------------------------------
 
@@ -987,7 +1374,11 @@ def run(ctx: core.Ctx):
                 'generator ptgen over all 13 classes built from the real qupulse classes (dyadic numbers; TimeReversalPT, '
                 'which only implements the integral, thinned out); (3) all nestings of depth <= 3 over two atoms; '
                 '(4) a single-fault malformed stream (closed forms still evaluated, nothing judged when create_program '
-                'rejects); every case with pad_to. Non-trivial = a program is produced from a tree with more than one node; '
+                'rejects); every case with pad_to; (5) shared objects / query history: one atom OBJECT (every atomic class, hand-made and '
+                'random) used by several templates (two loops with different ranges, parallel channel, repetition, mapping, '
+                'sequence, arithmetic, stand-alone), integral / initial_values / final_values / pad_to queried in varying '
+                'orders and repeatedly, result dicts mutated by the caller in between: every answer must equal the answer of a '
+                'fresh structurally equal template (which is judged like every other case). Non-trivial = a program is produced from a tree with more than one node; '
                 'distinct by canonical request line')
     ctx.assumptions = [
         'IEEE-754 arithmetic is exact on the generated dyadic numbers (power-of-two segment lengths and divisors)',
@@ -1027,6 +1418,7 @@ def run(ctx: core.Ctx):
         if diffs or viols or known:
             ctx.disagreements += 1 if (diffs or viols) else 0
             report(ctx, rec, diffs, viols, known)
+    shared_stream(ctx, ctx.n(120, 3000))
     simpson_tests(ctx)
     replay_known(ctx)
 
@@ -1055,6 +1447,9 @@ def replay(ctx: core.Ctx, rec: dict, from_corpus: bool = False) -> bool:
         sub.violations = ctx.violations
         simpson_tests(sub)
         return not ctx.violations
+    if rec.get('kind') == 'c07-shared':
+        outs = evaluate_scenarios(ctx, [{'scenario': rec['scenario'], 'seed': 0}])
+        return handle_scenarios(ctx, outs, count=from_corpus)
     case = rec.get('case')
     if case is None:
         return True
